@@ -199,13 +199,50 @@ func tryOpen(r *vf.Run, caseID, path, opt string, w map[string]any) (idx *updog.
 		return nil, nil, false
 	}
 	r.Count("lock_probes", 1)
-	if p, msg, stack := vf.Try(func() { idx, err = c15Open(path, opt) }); p {
-		w["panic"], w["stack"] = msg, head(stack, 2500)
+	if atomic.LoadInt64(&c15OpenHangs) >= 3 {
+		r.Count("opens_skipped_after_three_hangs", 1)
+		return nil, nil, false
+	}
+	// bounded progress: an OpenIndex that does not return is judged by where its goroutine is parked (it is left behind;
+	// the check goes on without it)
+	type openOutcome struct {
+		idx        *updog.Index
+		err        error
+		p          bool
+		msg, stack string
+	}
+	ch := make(chan openOutcome, 1)
+	go func() {
+		var o openOutcome
+		o.p, o.msg, o.stack = vf.Try(func() { o.idx, o.err = c15Open(path, opt) })
+		ch <- o
+	}()
+	var o openOutcome
+	select {
+	case o = <-ch:
+	case <-time.After(60 * time.Second):
+		atomic.AddInt64(&c15OpenHangs, 1)
+		stacks := joinStacks(mon.Stacks("updog"))
+		if c := mon.ClassifyDump(stacks); c != "" {
+			w["blocked"], w["stacks"] = c, head(stacks, 6000)
+			w["explanation"] = "OpenIndex did not return within 60 s"
+			r.Violation(caseID, "open-hangs", w)
+		} else {
+			r.Inconclusive(caseID + ": OpenIndex still running after 60 s")
+		}
+		return nil, nil, false
+	}
+	if o.p {
+		w["panic"], w["stack"] = o.msg, head(o.stack, 2500)
 		r.Violation(caseID, "open-panics", w)
 		return nil, nil, false
 	}
-	return idx, err, true
+	return o.idx, o.err, true
 }
+
+// c15OpenHangs counts OpenIndex calls that did not return; after three the remaining opens of the run are skipped
+// (each further one would only cost another watchdog period).
+var c15OpenHangs int64
 
 func runC15(r *vf.Run) {
 	r.Rule("one evaluation = one OpenIndex call in a history on a file derived from a valid index by damaging a subset of its parts (bucket x schema x counter x bitmaps) with one option set, run under recover; " +
